@@ -25,7 +25,8 @@
 EXTENDS ISAlign, TLC
 
 CONSTANTS Fields,    \* Fields[c] = sequence of [hasdef, def]: the init fields of class c (name = position)
-          InsertByRemaining   \* design as coded before fix F31 (TRUE): MC_Assign.C09 fails for calls
+          InsertByRemaining,  \* design as coded before fix F31 (TRUE): MC_Assign.C09 fails for calls
+          DropUserDefault     \* design as coded before fix F33 (TRUE): MC_Assign.C10 fails for calls
 \* a class whose code is written with POSITIONAL arguments only and never omits a default (collections.defaultdict:
 \* defaultdict(factory, {items})) - the last class, if the model has three
 PosCls == 3
@@ -158,7 +159,9 @@ Assign(tm, v, A) ==
                nf == Len(Fields[tm.c])
                \* positional arguments have no counterpart in the keyword-only view of the value: deleted by fix
                delPos == Len(tm.p) > 0
-               keepKw(q) == ~IsDefault(tm.c, tm.kn[q], v.f[tm.kn[q]])          \* keyword q survives
+               \* keyword q survives: its value is not the default - or the user controls it (Is(...): the value is the
+               \* default only at the moment; since fix F33, before it was removed by update)
+               keepKw(q) == ~IsDefault(tm.c, tm.kn[q], v.f[tm.kn[q]]) \/ (~DropUserDefault /\ tm.ke[q].t = "is")
                delCat(q) == IF VEq(old.f[tm.kn[q]], v.f[tm.kn[q]]) THEN "update" ELSE "fix"
                newNames == SelectSeq([j \in 1..nf |-> j], LAMBDA j : ~IsDefault(tm.c, j, v.f[j]))  \* in field order
                isIns(j) == ~Has(tm.kn, j)
